@@ -66,3 +66,221 @@ theorem blankGo_length (st : BlankSt) (s : List Char) : (blankGo st s).length = 
 theorem blankComments_length (s : List Char) : (blankComments s).length = s.length := blankGo_length .normal s
 
 end SP.Macro
+
+namespace SP.Macro
+
+/-- a character that is no part of a comment or rich-text marker -/
+def Safe (x : Char) : Prop := x ≠ '8' ∧ x ≠ '<' ∧ x ≠ '-' ∧ x ≠ '>' ∧ x ≠ '/' ∧ x ≠ '*'
+
+theorem look3_open (u : List Char) (x y : Char) (r1 r2 : List Char) (hx : Safe x) (hy : Safe y) :
+    ((u ++ x :: r1).take 3 = ['8', '<', '-']) = ((u ++ y :: r2).take 3 = ['8', '<', '-']) := by
+  apply propext
+  obtain ⟨x1, x2, x3, _, _, _⟩ := hx
+  obtain ⟨y1, y2, y3, _, _, _⟩ := hy
+  match u with
+  | [] => simp [List.take, x1, y1]
+  | [a] => simp [List.take, x2, y2]
+  | [a, b] => simp [List.take, x3, y3]
+  | a :: b :: c :: rest => simp [List.take]
+
+theorem look3_close (u : List Char) (x y : Char) (r1 r2 : List Char) (hx : Safe x) (hy : Safe y) :
+    ((u ++ x :: r1).take 3 = ['>', '8', '-']) = ((u ++ y :: r2).take 3 = ['>', '8', '-']) := by
+  apply propext
+  obtain ⟨x1, _, x3, x4, _, _⟩ := hx
+  obtain ⟨y1, _, y3, y4, _, _⟩ := hy
+  match u with
+  | [] => simp [List.take, x4, y4]
+  | [a] => simp [List.take, x1, y1]
+  | [a, b] => simp [List.take, x3, y3]
+  | a :: b :: c :: rest => simp [List.take]
+
+theorem look1 (u : List Char) (x y k : Char) (r1 r2 : List Char) (hx : x ≠ k) (hy : y ≠ k) :
+    ((u ++ x :: r1).head? = some k) = ((u ++ y :: r2).head? = some k) := by
+  apply propext
+  cases u with
+  | nil => simp [hx, hy]
+  | cons a rest => simp
+
+/-- the scanner state after `u` when the text goes on with the character `x` -/
+def endSt : BlankSt → List Char → Char → BlankSt
+  | st, [], _ => st
+  | .normal, c :: cs, x =>
+    if c = '"' ∨ c = '\'' then endSt (.str c) cs x
+    else if c = '-' ∧ (cs ++ [x]).take 3 = ['8', '<', '-'] then endSt (.copy 3 true) cs x
+    else if c = '#' then endSt .line cs x
+    else if c = '/' ∧ (cs ++ [x]).head? = some '/' then endSt .line cs x
+    else if c = '/' ∧ (cs ++ [x]).head? = some '*' then endSt .blockOpen cs x
+    else endSt .normal cs x
+  | .str q, c :: cs, x => if c = q then endSt .normal cs x else endSt (.str q) cs x
+  | .rich, c :: cs, x => if c = '-' ∧ (cs ++ [x]).take 3 = ['>', '8', '-'] then endSt (.copy 3 false) cs x else endSt .rich cs x
+  | .copy k r, _ :: cs, x => if k ≤ 1 then endSt (if r then .rich else .normal) cs x else endSt (.copy (k - 1) r) cs x
+  | .line, c :: cs, x => if c = '\n' then endSt .normal cs x else endSt .line cs x
+  | .blockOpen, _ :: cs, x => endSt .block cs x
+  | .block, c :: cs, x => if c = '*' ∧ (cs ++ [x]).head? = some '/' then endSt .blockClose cs x else endSt .block cs x
+  | .blockClose, _ :: cs, x => endSt .normal cs x
+
+/-- two texts with a common prefix `u`, continued by safe characters: the scanner writes the same for `u` and is in the same
+    state after it -/
+theorem blankGo_prefix (x y : Char) (r1 r2 : List Char) (hx : Safe x) (hy : Safe y) (u : List Char) (st : BlankSt) :
+    ∃ out, blankGo st (u ++ x :: r1) = out ++ blankGo (endSt st u x) (x :: r1) ∧
+      blankGo st (u ++ y :: r2) = out ++ blankGo (endSt st u x) (y :: r2) := by
+  induction u generalizing st with
+  | nil => exact ⟨[], rfl, rfl⟩
+  | cons a u ih =>
+    have h3o := look3_open u x y r1 r2 hx hy
+    have h3c := look3_close u x y r1 r2 hx hy
+    have h1s := look1 u x y '/' r1 r2 hx.2.2.2.2.1 hy.2.2.2.2.1
+    have h1a := look1 u x y '*' r1 r2 hx.2.2.2.2.2 hy.2.2.2.2.2
+    -- one step from `st` on `a`, the same in both texts, then the induction hypothesis
+    have t3o : ((u ++ [x]).take 3 = ['8', '<', '-']) = ((u ++ x :: r1).take 3 = ['8', '<', '-']) :=
+      look3_open u x x [] r1 hx hx
+    have t3c : ((u ++ [x]).take 3 = ['>', '8', '-']) = ((u ++ x :: r1).take 3 = ['>', '8', '-']) :=
+      look3_close u x x [] r1 hx hx
+    have t1s : ((u ++ [x]).head? = some '/') = ((u ++ x :: r1).head? = some '/') := look1 u x x '/' [] r1 hx.2.2.2.2.1 hx.2.2.2.2.1
+    have t1a : ((u ++ [x]).head? = some '*') = ((u ++ x :: r1).head? = some '*') := look1 u x x '*' [] r1 hx.2.2.2.2.2 hx.2.2.2.2.2
+    have step : ∀ (o : List Char) (st2 : BlankSt),
+        blankGo st (a :: u ++ x :: r1) = o ++ blankGo st2 (u ++ x :: r1) →
+        blankGo st (a :: u ++ y :: r2) = o ++ blankGo st2 (u ++ y :: r2) →
+        endSt st (a :: u) x = endSt st2 u x →
+        ∃ out, blankGo st (a :: u ++ x :: r1) = out ++ blankGo (endSt st (a :: u) x) (x :: r1) ∧
+          blankGo st (a :: u ++ y :: r2) = out ++ blankGo (endSt st (a :: u) x) (y :: r2) := by
+      intro o st2 e1 e2 e3
+      obtain ⟨out, i1, i2⟩ := ih st2
+      exact ⟨o ++ out, by rw [e1, i1, List.append_assoc, e3], by rw [e2, i2, List.append_assoc, e3]⟩
+    cases st with
+    | normal =>
+      simp only [List.cons_append] at *
+      by_cases c1 : a = '"' ∨ a = '\''
+      · exact step [a] (.str a) (by simp only [blankGo, c1, if_true]; rfl) (by simp only [blankGo, c1, if_true]; rfl)
+            (by simp only [endSt, t3o, t3c, t1s, t1a, *, if_true, if_false, and_self, not_false_eq_true, and_true, true_and] <;> rfl)
+      · by_cases c2 : a = '-' ∧ (u ++ x :: r1).take 3 = ['8', '<', '-']
+        · have c2' : a = '-' ∧ (u ++ y :: r2).take 3 = ['8', '<', '-'] := ⟨c2.1, by rw [← h3o]; exact c2.2⟩
+          exact step [a] (.copy 3 true) (by simp only [blankGo, c1, c2, if_false, if_true, and_self]; rfl)
+            (by simp only [blankGo, c1, c2', if_false, if_true, and_self]; rfl)
+                (by simp only [endSt, t3o, t3c, t1s, t1a, *, if_true, if_false, and_self, not_false_eq_true, and_true, true_and] <;> rfl)
+        · have c2' : ¬ (a = '-' ∧ (u ++ y :: r2).take 3 = ['8', '<', '-']) := fun h => c2 ⟨h.1, by rw [h3o]; exact h.2⟩
+          by_cases c3 : a = '#'
+          · exact step [' '] .line (by simp only [blankGo, c1, c2, c3, if_false, if_true]; rfl)
+              (by simp only [blankGo, c1, c2', c3, if_false, if_true]; rfl)
+                (by simp only [endSt, t3o, t3c, t1s, t1a, *, if_true, if_false, and_self, not_false_eq_true, and_true, true_and] <;> rfl)
+          · by_cases c4 : a = '/' ∧ (u ++ x :: r1).head? = some '/'
+            · have c4' : a = '/' ∧ (u ++ y :: r2).head? = some '/' := ⟨c4.1, by rw [← h1s]; exact c4.2⟩
+              exact step [' '] .line (by simp only [blankGo, c1, c2, c3, c4, if_false, if_true, and_self]; rfl)
+                (by simp only [blankGo, c1, c2', c3, c4', if_false, if_true, and_self]; rfl)
+                    (by simp only [endSt, t3o, t3c, t1s, t1a, *, if_true, if_false, and_self, not_false_eq_true, and_true, true_and] <;> rfl)
+            · have c4' : ¬ (a = '/' ∧ (u ++ y :: r2).head? = some '/') := fun h => c4 ⟨h.1, by rw [h1s]; exact h.2⟩
+              by_cases c5 : a = '/' ∧ (u ++ x :: r1).head? = some '*'
+              · have c5' : a = '/' ∧ (u ++ y :: r2).head? = some '*' := ⟨c5.1, by rw [← h1a]; exact c5.2⟩
+                exact step [' '] .blockOpen (by simp only [blankGo, c1, c2, c3, c4, c5, if_false, if_true, and_self]; rfl)
+                  (by simp only [blankGo, c1, c2', c3, c4', c5', if_false, if_true, and_self]; rfl)
+                      (by simp only [endSt, t3o, t3c, t1s, t1a, *, if_true, if_false, and_self, not_false_eq_true, and_true, true_and] <;> rfl)
+              · have c5' : ¬ (a = '/' ∧ (u ++ y :: r2).head? = some '*') := fun h => c5 ⟨h.1, by rw [h1a]; exact h.2⟩
+                exact step [a] .normal (by simp only [blankGo, c1, c2, c3, c4, c5, if_false]; rfl)
+                  (by simp only [blankGo, c1, c2', c3, c4', c5', if_false]; rfl)
+                      (by simp only [endSt, t3o, t3c, t1s, t1a, *, if_true, if_false, and_self, not_false_eq_true, and_true, true_and] <;> rfl)
+    | str q =>
+      simp only [List.cons_append] at *
+      by_cases c1 : a = q
+      · exact step [a] .normal (by simp only [blankGo, c1, if_true]; rfl) (by simp only [blankGo, c1, if_true]; rfl)
+            (by simp only [endSt, t3o, t3c, t1s, t1a, *, if_true, if_false, and_self, not_false_eq_true, and_true, true_and] <;> rfl)
+      · exact step [a] (.str q) (by simp only [blankGo, c1, if_false]; rfl) (by simp only [blankGo, c1, if_false]; rfl)
+            (by simp only [endSt, t3o, t3c, t1s, t1a, *, if_true, if_false, and_self, not_false_eq_true, and_true, true_and] <;> rfl)
+    | rich =>
+      simp only [List.cons_append] at *
+      by_cases c2 : a = '-' ∧ (u ++ x :: r1).take 3 = ['>', '8', '-']
+      · have c2' : a = '-' ∧ (u ++ y :: r2).take 3 = ['>', '8', '-'] := ⟨c2.1, by rw [← h3c]; exact c2.2⟩
+        exact step [a] (.copy 3 false) (by simp only [blankGo, c2, if_true, and_self]; rfl)
+          (by simp only [blankGo, c2', if_true, and_self]; rfl)
+              (by simp only [endSt, t3o, t3c, t1s, t1a, *, if_true, if_false, and_self, not_false_eq_true, and_true, true_and] <;> rfl)
+      · have c2' : ¬ (a = '-' ∧ (u ++ y :: r2).take 3 = ['>', '8', '-']) := fun h => c2 ⟨h.1, by rw [h3c]; exact h.2⟩
+        exact step [a] .rich (by simp only [blankGo, c2, if_false]; rfl) (by simp only [blankGo, c2', if_false]; rfl)
+              (by simp only [endSt, t3o, t3c, t1s, t1a, *, if_true, if_false, and_self, not_false_eq_true, and_true, true_and] <;> rfl)
+    | copy k r =>
+      simp only [List.cons_append] at *
+      by_cases c1 : k ≤ 1
+      · exact step [a] (if r then .rich else .normal) (by simp only [blankGo, c1, if_true]; rfl)
+          (by simp only [blankGo, c1, if_true]; rfl)
+            (by simp only [endSt, t3o, t3c, t1s, t1a, *, if_true, if_false, and_self, not_false_eq_true, and_true, true_and] <;> rfl)
+      · exact step [a] (.copy (k - 1) r) (by simp only [blankGo, c1, if_false]; rfl)
+          (by simp only [blankGo, c1, if_false]; rfl)
+            (by simp only [endSt, t3o, t3c, t1s, t1a, *, if_true, if_false, and_self, not_false_eq_true, and_true, true_and] <;> rfl)
+    | line =>
+      simp only [List.cons_append] at *
+      by_cases c1 : a = '\n'
+      · exact step [a] .normal (by simp only [blankGo, c1, if_true]; rfl) (by simp only [blankGo, c1, if_true]; rfl)
+            (by simp only [endSt, t3o, t3c, t1s, t1a, *, if_true, if_false, and_self, not_false_eq_true, and_true, true_and] <;> rfl)
+      · exact step [' '] .line (by simp only [blankGo, c1, if_false]; rfl) (by simp only [blankGo, c1, if_false]; rfl)
+            (by simp only [endSt, t3o, t3c, t1s, t1a, *, if_true, if_false, and_self, not_false_eq_true, and_true, true_and] <;> rfl)
+    | blockOpen =>
+      simp only [List.cons_append] at *
+      exact step [' '] .block (by simp only [blankGo]; rfl) (by simp only [blankGo]; rfl)
+            (by simp only [endSt, t3o, t3c, t1s, t1a, *, if_true, if_false, and_self, not_false_eq_true, and_true, true_and] <;> rfl)
+    | block =>
+      simp only [List.cons_append] at *
+      by_cases c4 : a = '*' ∧ (u ++ x :: r1).head? = some '/'
+      · have c4' : a = '*' ∧ (u ++ y :: r2).head? = some '/' := ⟨c4.1, by rw [← h1s]; exact c4.2⟩
+        exact step [' '] .blockClose (by simp only [blankGo, c4, if_true, and_self]; rfl)
+          (by simp only [blankGo, c4', if_true, and_self]; rfl)
+              (by simp only [endSt, t3o, t3c, t1s, t1a, *, if_true, if_false, and_self, not_false_eq_true, and_true, true_and] <;> rfl)
+      · have c4' : ¬ (a = '*' ∧ (u ++ y :: r2).head? = some '/') := fun h => c4 ⟨h.1, by rw [h1s]; exact h.2⟩
+        exact step [if a = '\n' then a else ' '] .block (by simp only [blankGo, c4, if_false]; rfl)
+          (by simp only [blankGo, c4', if_false]; rfl)
+              (by simp only [endSt, t3o, t3c, t1s, t1a, *, if_true, if_false, and_self, not_false_eq_true, and_true, true_and] <;> rfl)
+    | blockClose =>
+      simp only [List.cons_append] at *
+      exact step [' '] .normal (by simp only [blankGo]; rfl) (by simp only [blankGo]; rfl)
+            (by simp only [endSt, t3o, t3c, t1s, t1a, *, if_true, if_false, and_self, not_false_eq_true, and_true, true_and] <;> rfl)
+
+end SP.Macro
+
+namespace SP.Macro
+
+theorem safe_hash : Safe '#' := by unfold Safe; decide
+theorem safe_blank : Safe ' ' := by unfold Safe; decide
+
+theorem blankGo_blanks (k : Nat) (w : List Char) :
+    blankGo .normal (List.replicate k ' ' ++ '\n' :: w) = List.replicate k ' ' ++ '\n' :: blankGo .normal w := by
+  induction k with
+  | zero =>
+    have h1 : ¬ (('\n' : Char) = '"' ∨ ('\n' : Char) = '\'') := by decide
+    have h2 : ¬ (('\n' : Char) = '-' ∧ w.take 3 = ['8', '<', '-']) := by intro h; exact absurd h.1 (by decide)
+    have h3 : ¬ (('\n' : Char) = '#') := by decide
+    have h4 : ¬ (('\n' : Char) = '/' ∧ w.head? = some '/') := by intro h; exact absurd h.1 (by decide)
+    have h5 : ¬ (('\n' : Char) = '/' ∧ w.head? = some '*') := by intro h; exact absurd h.1 (by decide)
+    simp only [List.replicate_zero, List.nil_append, blankGo, h1, h2, h3, h4, h5, if_false]
+  | succ k ih =>
+    have h1 : ¬ ((' ' : Char) = '"' ∨ (' ' : Char) = '\'') := by decide
+    have h2 : ¬ ((' ' : Char) = '-' ∧ (List.replicate k ' ' ++ '\n' :: w).take 3 = ['8', '<', '-']) := by
+      intro h; exact absurd h.1 (by decide)
+    have h3 : ¬ ((' ' : Char) = '#') := by decide
+    have h4 : ¬ ((' ' : Char) = '/' ∧ (List.replicate k ' ' ++ '\n' :: w).head? = some '/') := by
+      intro h; exact absurd h.1 (by decide)
+    have h5 : ¬ ((' ' : Char) = '/' ∧ (List.replicate k ' ' ++ '\n' :: w).head? = some '*') := by
+      intro h; exact absurd h.1 (by decide)
+    simp only [List.replicate_succ, List.cons_append, blankGo, h1, h2, h3, h4, h5, if_false]
+    rw [ih]
+
+/-- **a comment anywhere is white space**: wherever the scanner is in its normal state after the text `u` (outside strings, rich
+    text blocks and other comments — `endSt`), a `#` comment up to the end of its line gives exactly what the same number of
+    blanks gives, whatever the comment contains -/
+theorem comment_anywhere_is_whitespace (u c v : List Char) (hc : ∀ x ∈ c, x ≠ '\n')
+    (hn : endSt .normal u '#' = .normal) :
+    blankComments (u ++ '#' :: c ++ '\n' :: v) = blankComments (u ++ List.replicate (c.length + 1) ' ' ++ '\n' :: v) := by
+  unfold blankComments
+  obtain ⟨out, h1, h2⟩ := blankGo_prefix '#' ' ' (c ++ '\n' :: v) (List.replicate c.length ' ' ++ '\n' :: v)
+    safe_hash safe_blank u .normal
+  rw [hn] at h1 h2
+  have e1 : u ++ '#' :: c ++ '\n' :: v = u ++ '#' :: (c ++ '\n' :: v) := by simp
+  have e2 : u ++ List.replicate (c.length + 1) ' ' ++ '\n' :: v = u ++ ' ' :: (List.replicate c.length ' ' ++ '\n' :: v) := by
+    simp [List.replicate_succ]
+  rw [e1, e2, h1, h2]
+  congr 1
+  have := blankGo_hash_comment c hc v
+  simp only [List.cons_append] at this
+  rw [this]
+  have hb := blankGo_blanks (c.length + 1) v
+  simp only [List.replicate_succ, List.cons_append] at hb
+  rw [hb]
+  simp [List.replicate_succ]
+
+end SP.Macro
